@@ -188,9 +188,17 @@ static enum websocket_callback_return ws_handle_frame(struct websocket *s, uint8
 		}
 		switch (s->ws_flags.frag_opcode) {
 		case WS_BINARY_FRAME:
+			if (unlikely(s->binary_frame_received == NULL)) {
+				handle_error(s, WS_CLOSE_UNSUPPORTED);
+				return WS_CLOSED;
+			}
 			ret = binary_frame_received_comp(s->ws_flags.is_frag_compressed, s, frame, length, last_frame, s->binary_frame_received);
 			break;
 		case WS_TEXT_FRAME:
+			if (unlikely(s->text_frame_received == NULL)) {
+				handle_error(s, WS_CLOSE_UNSUPPORTED);
+				return WS_CLOSED;
+			}
 			ret = text_frame_received_comp(s->ws_flags.is_frag_compressed, s, (char *)frame, length, last_frame, s->text_frame_received);
 			if (ret == WS_CLOSED) {
 				handle_error(s, WS_CLOSE_UNSUPPORTED_DATA);
